@@ -76,12 +76,28 @@ def header_text(st_):
 
 
 VALS = [1.5, 2.5, 0.75, 4.0, 3.25]
+EDITS = ["k1", "k2", "k3", "k4", "param", "default"]
 
 
 @st.composite
 def histories(draw):
     n = draw(st.integers(3, 12))
     steps = []
+    if draw(st.integers(0, 2)) == 0:
+        # every ordered pair of edits with a load in the same process before, between and after them: stale state
+        # that needs one file reloaded while another stays cached is only reached by such orderings
+        def edit(kind):
+            if kind in ("k1", "k2", "k4"):
+                return {"op": kind, "value": draw(st.sampled_from(VALS))}
+            if kind == "k3":
+                return {"op": "k3", "value": draw(st.sampled_from(VALS))}
+            if kind == "param":
+                return {"op": "param", "value": draw(st.sampled_from([2.0, 0.5]))}
+            return {"op": "default", "value": draw(st.sampled_from([10.0, 30.0]))}
+        ev = {"op": "eval", "where": "worker", "dtype": "double", "rr": None}
+        first, second = draw(st.sampled_from(EDITS)), draw(st.sampled_from(EDITS))
+        steps = [dict(ev), edit(first), dict(ev), edit(second), dict(ev)]
+        n = draw(st.integers(0, 5))
     for _ in range(n):
         kind = draw(st.sampled_from(["k1", "k2", "k3", "k4", "param", "default", "revert", "eval", "eval", "eval", "eval"]))
         if kind in ("k1", "k2", "k4"):
@@ -261,4 +277,4 @@ def plan(tier):
 
 
 def run_shard(ctx, spec):
-    ctx.explore("history", histories(), 8 if ctx.tier == "quick" else 120, shrink=True, shrink_examples=6)
+    ctx.explore("history", histories(), 20 if ctx.tier == "quick" else 150, shrink=True, shrink_examples=6)
